@@ -686,7 +686,8 @@ def _classify(it, backend, got, compact):
     # (mapped to the week before week 1 / the day before Monday); only the upper bounds were checked
     if it["exp"] == "reject" and form in ("invalid-week0", "invalid-weekday0") and not rejected:
         return "week-zero-accepted"
-    # pure-Python 6-digit basic time without T and with an hour below 10: f"{year!s}" drops the leading zero
+    # finding py-hhmmss-leading-zero (status fixed: a reproduction is a VIOLATION): pure-Python 6-digit basic time without T and with an
+    # hour below 10: f"{year!s}" dropped the leading zero
     if backend == "py" and form == "time-bare-basic" and it.get("hour", 99) < 10:
         return "py-hhmmss-leading-zero"
     # compiled parser: bare hhmmss is not a time at all
